@@ -387,6 +387,7 @@ impl World {
         drain_wakes();
         let acc_before = self.mon.accepted.len();
         let stale_before = self.mon.stale_bytes;
+        let (rlost_before, wlost_before) = (self.mon.rlost, self.mon.wlost);
         let rowed_before = self.mon.rowed;
         let wowed_before = self.mon.wowed;
         let res = match w[0] {
@@ -427,8 +428,8 @@ impl World {
             // Pending; on the async write half only as the debug_assert that finding F15 trips
             let expected = match w[0] {
                 "consume" | "co" => true,
-                "fill" => self.mon.rlost,
-                "wflush" => self.mon.wlost,
+                "fill" => rlost_before,
+                "wflush" => wlost_before,
                 "pw" | "pfl" | "pcl" => stale_before,
                 _ => false,
             };
